@@ -88,11 +88,11 @@ structure State where
 def State.init : State := { mgr := Names.Mgr.init, clusters := [], lim := LocalLimiter.World.init, buckets := [] }
 
 /-- the upstream clusters as oracles (C12 without caches): what cluster `p`'s TokenReview says about a bearer token and
-    what its SubjectAccessReview says about an impersonation request of `requestor`. `none`: the request is not bound to
+    what its SubjectAccessReview says about the authorizer attributes of an impersonation check of `requestor`. `none`: the request is not bound to
     a cluster (IP-literal host: the gateway's own control plane). -/
 structure Env where
   authn : Option Nat → Str → Option Identity.Identity
-  authz : Option Nat → Identity.Identity → Identity.ImpReq → Identity.Decision
+  authz : Option Nat → Identity.Identity → Identity.Attrs → Identity.Decision
 
 /-- `CreateClusterInfo(obj)` + registration by `syncUpstreamCluster` (bootstrap path only: `obj.Name` is not served yet).
     The conflict rules are C10's; a refused or failed object leaves everything unchanged. `none`: not modelled here
